@@ -1,30 +1,55 @@
-/* LD_PRELOAD shim used by the /verif checks.
-   VERIF_IO_SEED=<n>     read()/write() on fds 0/1 (and any regular-file fd named by
-                         VERIF_IO_ALLFD=1) transfer a pseudo-random part (>= 1 byte) of what
+/* LD_PRELOAD shim used by the /verif checks (fault and signal injection, short transfers).
+   VERIF_IO_SEED=<n>     read()/write() on fds 0/1 transfer a pseudo-random part (>= 1 byte) of what
                          was asked for: legal short reads / short writes.
-   VERIF_IO_FAIL=<op>:<k>:<errno>[:<fdclass>]
-                         the k-th (1-based) call of op (read|write|close) on the selected fds
-                         fails with errno.  fdclass: std (fds 0/1, default) or any.
-   Counting is global (all threads), which is what a "k-th call of the run" means. */
+   VERIF_IO_LOG=<file>   append one line "<op> <fd|path>" per intercepted call (dry run: the driver
+                         learns how many calls of each kind a run makes).
+   VERIF_IO_FAIL=<op>:<k>:<errno>
+                         the k-th (1-based) call of op fails with errno (the real call is not made).
+   VERIF_IO_SIG=<op>:<k>:<signo>[:after]
+                         signal signo is sent to the process right before (or after) the k-th call of op.
+   ops: read write close fchown fchmod futimens unlink open.  Counting is global over all threads
+   ("the k-th call of the run").  read/write are counted for every fd except 2 (stderr) and the
+   shim's own log. */
 #define _GNU_SOURCE
 #include <dlfcn.h>
 #include <errno.h>
+#include <fcntl.h>
+#include <pthread.h>
+#include <signal.h>
+#include <stdarg.h>
+#include <stdio.h>
 #include <stdlib.h>
 #include <string.h>
+#include <sys/stat.h>
+#include <sys/types.h>
 #include <unistd.h>
-#include <pthread.h>
+
+enum { O_READ, O_WRITE, O_CLOSE, O_FCHOWN, O_FCHMOD, O_FUTIMENS, O_UNLINK, O_OPEN, O_MAX };
+static const char *opname[O_MAX] = { "read", "write", "close", "fchown", "fchmod", "futimens", "unlink", "open" };
 
 static ssize_t (*real_read)(int, void *, size_t);
 static ssize_t (*real_write)(int, const void *, size_t);
+static int (*real_close)(int);
+static int (*real_fchown)(int, uid_t, gid_t);
+static int (*real_fchmod)(int, mode_t);
+static int (*real_futimens)(int, const struct timespec[2]);
+static int (*real_unlink)(const char *);
+static int (*real_open)(const char *, int, ...);
+
 static pthread_mutex_t mu = PTHREAD_MUTEX_INITIALIZER;
-static int inited;
+static int inited, logfd = -1;
 static long seed = -1;
 static unsigned long long rng;
-static char fail_op[8];
-static long fail_k = -1;
-static int fail_errno;
-static int fail_any;
-static long n_read, n_write;
+static int fail_op = -1, fail_errno, sig_op = -1, sig_no, sig_after;
+static long fail_k = -1, sig_k = -1;
+static long count[O_MAX];
+
+static int opindex(const char *s)
+{
+  int i;
+  for (i = 0; i < O_MAX; i++) if (strcmp(s, opname[i]) == 0) return i;
+  return -1;
+}
 
 static void init(void)
 {
@@ -33,58 +58,165 @@ static void init(void)
   inited = 1;
   real_read = dlsym(RTLD_NEXT, "read");
   real_write = dlsym(RTLD_NEXT, "write");
+  real_close = dlsym(RTLD_NEXT, "close");
+  real_fchown = dlsym(RTLD_NEXT, "fchown");
+  real_fchmod = dlsym(RTLD_NEXT, "fchmod");
+  real_futimens = dlsym(RTLD_NEXT, "futimens");
+  real_unlink = dlsym(RTLD_NEXT, "unlink");
+  real_open = dlsym(RTLD_NEXT, "open");
   p = getenv("VERIF_IO_SEED");
   if (p && *p) { seed = atol(p); rng = 0x9E3779B97F4A7C15ull * (unsigned long long)(seed + 1) + 1; }
+  p = getenv("VERIF_IO_LOG");
+  if (p && *p) logfd = real_open(p, O_WRONLY | O_CREAT | O_APPEND | O_CLOEXEC, 0666);
   p = getenv("VERIF_IO_FAIL");
+  if (p && *p) {
+    char buf[64]; char *a, *b, *c;
+    strncpy(buf, p, sizeof buf - 1); buf[sizeof buf - 1] = 0;
+    a = strtok(buf, ":"); b = strtok(NULL, ":"); c = strtok(NULL, ":");
+    if (a && b && c) { fail_op = opindex(a); fail_k = atol(b); fail_errno = atoi(c); }
+  }
+  p = getenv("VERIF_IO_SIG");
   if (p && *p) {
     char buf[64]; char *a, *b, *c, *d;
     strncpy(buf, p, sizeof buf - 1); buf[sizeof buf - 1] = 0;
     a = strtok(buf, ":"); b = strtok(NULL, ":"); c = strtok(NULL, ":"); d = strtok(NULL, ":");
-    if (a && b && c) { strncpy(fail_op, a, sizeof fail_op - 1); fail_k = atol(b); fail_errno = atoi(c); }
-    if (d && strcmp(d, "any") == 0) fail_any = 1;
+    if (a && b && c) { sig_op = opindex(a); sig_k = atol(b); sig_no = atoi(c); sig_after = d && strcmp(d, "after") == 0; }
   }
+}
+
+/* returns: bit 0 = fail this call, bit 1 = signal before, bit 2 = signal after */
+static int enter(int op, int fd, const char *path)
+{
+  int r = 0;
+  pthread_mutex_lock(&mu);
+  init();
+  count[op]++;
+  if (logfd >= 0) {
+    char line[300];
+    int n = path ? snprintf(line, sizeof line, "%s %s\n", opname[op], path) : snprintf(line, sizeof line, "%s %d\n", opname[op], fd);
+    if (n > 0) (void)real_write(logfd, line, (size_t)n);
+  }
+  if (op == fail_op && count[op] == fail_k) r |= 1;
+  if (op == sig_op && count[op] == sig_k) r |= sig_after ? 4 : 2;
+  pthread_mutex_unlock(&mu);
+  if (r & 2) kill(getpid(), sig_no);
+  return r;
 }
 
 static size_t part(size_t n)
 {
+  size_t m;
+  pthread_mutex_lock(&mu);
   rng ^= rng << 13; rng ^= rng >> 7; rng ^= rng << 17;
-  if (n <= 1) return n;
-  switch ((rng >> 20) % 4) {
-  case 0: return 1;
-  case 1: return 1 + (size_t)((rng >> 24) % n);
-  case 2: return n > 7 ? 1 + (size_t)((rng >> 24) % 7) : n;
-  default: return n;
+  if (n <= 1) m = n;
+  else switch ((rng >> 20) % 4) {
+    case 0: m = 1; break;
+    case 1: m = 1 + (size_t)((rng >> 24) % n); break;
+    case 2: m = n > 7 ? 1 + (size_t)((rng >> 24) % 7) : n; break;
+    default: m = n;
   }
+  pthread_mutex_unlock(&mu);
+  return m;
 }
 
 ssize_t read(int fd, void *buf, size_t n)
 {
-  size_t m = n; int fail = 0;
-  pthread_mutex_lock(&mu);
-  init();
-  if (fd == 0 || fail_any) {
-    if (fd > 2 || fd == 0) {
-      n_read++;
-      if (fail_k > 0 && strcmp(fail_op, "read") == 0 && n_read == fail_k) fail = 1;
-    }
-  }
-  if (fd == 0 && seed >= 0) m = part(n);
-  pthread_mutex_unlock(&mu);
-  if (fail) { errno = fail_errno; return -1; }
-  return real_read(fd, buf, m);
+  int r;
+  ssize_t rv;
+  pthread_mutex_lock(&mu); init(); pthread_mutex_unlock(&mu);
+  if (fd == 2 || fd == logfd) return real_read(fd, buf, n);
+  r = enter(O_READ, fd, NULL);
+  if (r & 1) { errno = fail_errno; return -1; }
+  rv = real_read(fd, buf, (fd == 0 && seed >= 0) ? part(n) : n);
+  if (r & 4) kill(getpid(), sig_no);
+  return rv;
 }
 
 ssize_t write(int fd, const void *buf, size_t n)
 {
-  size_t m = n; int fail = 0;
-  pthread_mutex_lock(&mu);
-  init();
-  if (fd == 1 || (fail_any && fd > 2)) {
-    n_write++;
-    if (fail_k > 0 && strcmp(fail_op, "write") == 0 && n_write == fail_k) fail = 1;
+  int r;
+  ssize_t rv;
+  pthread_mutex_lock(&mu); init(); pthread_mutex_unlock(&mu);
+  if (fd == 2 || fd == logfd) return real_write(fd, buf, n);
+  /* the hook layer's trace file is not part of the program's I/O */
+  if (fd > 2 && getenv("VERIF_TRACE") != NULL) {
+    char lk[64], tgt[512];
+    ssize_t k;
+    snprintf(lk, sizeof lk, "/proc/self/fd/%d", fd);
+    k = readlink(lk, tgt, sizeof tgt - 1);
+    if (k > 0) { tgt[k] = 0; if (strcmp(tgt, getenv("VERIF_TRACE")) == 0) return real_write(fd, buf, n); }
   }
-  if (fd == 1 && seed >= 0) m = part(n);
-  pthread_mutex_unlock(&mu);
-  if (fail) { errno = fail_errno; return -1; }
-  return real_write(fd, buf, m);
+  r = enter(O_WRITE, fd, NULL);
+  if (r & 1) { errno = fail_errno; return -1; }
+  rv = real_write(fd, buf, (fd == 1 && seed >= 0) ? part(n) : n);
+  if (r & 4) kill(getpid(), sig_no);
+  return rv;
+}
+
+int close(int fd)
+{
+  int r, rv;
+  pthread_mutex_lock(&mu); init(); pthread_mutex_unlock(&mu);
+  if (fd == logfd) return 0;
+  r = enter(O_CLOSE, fd, NULL);
+  if (r & 1) { (void)real_close(fd); errno = fail_errno; return -1; }   /* like a deferred write error: the descriptor is gone */
+  rv = real_close(fd);
+  if (r & 4) kill(getpid(), sig_no);
+  return rv;
+}
+
+int fchown(int fd, uid_t u, gid_t g)
+{
+  int r = enter(O_FCHOWN, fd, NULL), rv;
+  if (r & 1) { errno = fail_errno; return -1; }
+  rv = real_fchown(fd, u, g);
+  if (r & 4) kill(getpid(), sig_no);
+  return rv;
+}
+
+int fchmod(int fd, mode_t m)
+{
+  int r = enter(O_FCHMOD, fd, NULL), rv;
+  if (r & 1) { errno = fail_errno; return -1; }
+  rv = real_fchmod(fd, m);
+  if (r & 4) kill(getpid(), sig_no);
+  return rv;
+}
+
+int futimens(int fd, const struct timespec ts[2])
+{
+  int r = enter(O_FUTIMENS, fd, NULL), rv;
+  if (r & 1) { errno = fail_errno; return -1; }
+  rv = real_futimens(fd, ts);
+  if (r & 4) kill(getpid(), sig_no);
+  return rv;
+}
+
+int unlink(const char *path)
+{
+  int r = enter(O_UNLINK, -1, path), rv;
+  if (r & 1) { errno = fail_errno; return -1; }
+  rv = real_unlink(path);
+  if (r & 4) kill(getpid(), sig_no);
+  return rv;
+}
+
+int open(const char *path, int flags, ...)
+{
+  int r, rv;
+  mode_t mode = 0;
+  if (flags & O_CREAT) { va_list ap; va_start(ap, flags); mode = (mode_t)va_arg(ap, int); va_end(ap); }
+  pthread_mutex_lock(&mu); init(); pthread_mutex_unlock(&mu);
+  if (strncmp(path, "/proc/", 6) == 0) return real_open(path, flags, mode);
+  r = enter(O_OPEN, -1, path);
+  if (r & 1) { errno = fail_errno; return -1; }
+  rv = real_open(path, flags, mode);
+  if (r & 4) kill(getpid(), sig_no);
+  return rv;
+}
+int open64(const char *path, int flags, ...)
+{
+  mode_t mode = 0;
+  if (flags & O_CREAT) { va_list ap; va_start(ap, flags); mode = (mode_t)va_arg(ap, int); va_end(ap); }
+  return open(path, flags, mode);
 }
